@@ -135,14 +135,27 @@ def run_m6a(rng, tier, case):
 # -------------------------------------------------------------------------------------------------
 # M6b / M6c
 # -------------------------------------------------------------------------------------------------
-def gen_uc_case(rng, with_profiles):
+def gen_uc_case(rng, with_profiles, dst_daily=False):
     g = gen.gen_grid(rng, freqs=['h', 'h', '30min', '2h', '15min'], steps=(6, 14), tzs=[None, 'CET'], units=['h', 'h', 'd', 'min'])
+    if dst_daily:
+        for _ in range(20):
+            g = gen.gen_grid(rng, dst=True, steps=(6, 12))
+            if g['freq'] == 'd':
+                break
     f = gen.UNIT_F[g['unit']]
     T = len(gen.grid_points(g))
     chp = rng.random() < 0.4
     fuel = rng.random() < 0.6
     nodes = ['pw'] + (['ht'] if chp else []) + (['fu'] if fuel else [])
     a = gen.gen_plant(rng, g, 'P', nodes, f, 'pc', chp=chp, simple=False, ramp_profiles=with_profiles)      # 'pc': the plant's own variable generation cost
+    if dst_daily:
+        # calendar-day steps of 23 / 24 / 25 h: what is tied to the step LENGTH (capacity, running consumption, running costs) is judged with the real
+        # lengths; ramps and durations in steps are not sharply defined on unequal steps and are left out of this family
+        for kf in ('ramp', 'last_dispatch', 'min_runtime', 'min_downtime', 'time_already_running', 'time_already_off', 'start_ramp_lower_bounds', 'start_ramp_upper_bounds',
+                   'shutdown_ramp_lower_bounds', 'shutdown_ramp_upper_bounds', 'ramp_freq'):
+            a.pop(kf, None)
+        if fuel and rng.random() < 0.7:
+            a['consumption_if_on'] = gen.r2(gen.pick(rng, [0.1, 0.5]) * f)
     if rng.random() < 0.12:
         # a minimum runtime / downtime that reaches beyond the horizon
         st_ = float(pd.Timedelta(to_offset(g['freq'])) / pd.Timedelta(1, g['unit']))
@@ -174,7 +187,10 @@ def steps_of(v, dur_to_steps):
 
 
 def run_m6bc(rng, tier, case, reference):
-    spec = gen.strip_private(gen_uc_case(rng, with_profiles=not reference))
+    dst_daily = (not reference) and rng.random() < 0.12
+    spec = gen.strip_private(gen_uc_case(rng, with_profiles=not reference, dst_daily=dst_daily))
+    if dst_daily:
+        case.feature('daily_steps_over_dst_switch')
     a = [x for x in spec['assets'] if x['name'] == 'P'][0]
     g = spec['grid']
     ck = Clock(g)
@@ -286,8 +302,9 @@ def run_m6bc(rng, tier, case, reference):
         R = to_steps(a.get('time_already_running', 0) or 0); F = to_steps(a.get('time_already_off', 0) or 0)
         include_start = MR > 1 or (a.get('start_costs', 0) or 0) != 0 or k_s or k_d or ((a.get('start_fuel', 0) or 0) != 0 and 'fu' in a['nodes'])
         MR_eff = MR if include_start else 0
-        case.check('uc.pattern_respects_runtime_downtime', admitted(on_i.tolist(), MR_eff, MD, R, F), nonvacuous=(MR_eff > 1 or MD > 1) and switches > 0, **who, on=on_i.tolist(),
-                   min_runtime_steps=MR_eff, min_downtime_steps=MD, running_steps=R, off_steps=F)
+        if prof_known:      # (profiles given in another frequency than the grid's are converted by EAO: their length in steps is not the list length)
+            case.check('uc.pattern_respects_runtime_downtime', admitted(on_i.tolist(), MR_eff, MD, R, F), nonvacuous=(MR_eff > 1 or MD > 1) and switches > 0, **who, on=on_i.tolist(),
+                       min_runtime_steps=MR_eff, min_downtime_steps=MD, running_steps=R, off_steps=F)
     # heat share
     if chp and a.get('max_share_heat') is not None:
         case.check('uc.heat_share', bool(np.all(heat <= a['max_share_heat'] * power + tol)), nonvacuous=bool(heat.max() > tol), **who, heat=heat[:6].tolist(), power=power[:6].tolist())
